@@ -22,7 +22,7 @@ func init() {
 				"Runtime.scope itself is replaced by a fresh scope literal. A new Runtime field that is written during execution but never reset fails the rule. (C10.putlast) Runtime.recover does not " +
 				"touch the runtime after Put, and Execute defers recover before it first writes to the runtime. (C10.ast) no function that is reachable from Execute but not from Set.parse stores to a field " +
 				"of Template, Set, Arguments or any AST node type (nor into slices/maps held there): executing never modifies the parsed template. (C10.pools) every pooled ranger's Setup assigns all " +
-				"fields of its struct on every path, the range arm never calls Range after cleanup, and getRanger hands out objects obtained from the pool.",
+				"fields of its struct on every path, the range arm never calls Range after cleanup, and getRanger hands out objects obtained from the pool. (C10.memo) the memoised struct field table consulted by resolveIndex is the published one on every path (first and later accesses of a type answer alike).",
 			NotDecided:  "determinism of map iteration; side effects of user functions and Renderers; addressable views of literal nodes handed to user functions (reflect.ValueOf(&node.Text).Elem()).",
 			Assumptions: []string{"sync.Pool hands an object to one goroutine at a time"},
 			Trusted:     commonTrusted,
